@@ -456,27 +456,42 @@ def clip_mask_rule(chk, prog, rule):
   v, ctx, env = ev2.run(f)
   site, loc = f'{SH}.Grid.clip_wavenumbers', (f.file, f.lineno)
   x = S(f.param_names()[1])
-  fs = match.plain_factors(v)
-  other = [t for t in fs if t != x]
-  if chk.check(len(fs) == 2 and x in fs and len(other) == 1, rule, f'{site}: multiplies by a 0/1 mask along the total-wavenumber axis', sym.show(v)[:200], loc):
-    B = alg.Algebra(ev2)
-    n = B.name(lambda t: t == S('n'), 'n', positive=True)
-    pad = B.name(lambda t: t.k == 'sub' and t.a[1] == sym.const(-1) and t.a[0].k == 'attr' and t.a[0].a[1] == 'modal_padding', 'pad_l', nonnegative=True)
-    L = B.name(lambda t: t.k == 'attr' and t.a[1] == 'total_wavenumbers', 'L', positive=True)
-    B.name(lambda t: t.k == 'sub' and t.a[1] == sym.const(-1) and t.a[0].k == 'attr' and t.a[0].a[1] == 'modal_shape', 'shape_l')
-    res = mask_keep_threshold(other[0], B, L, pad)
-    if res is None:
-      raise AnalysisError(f'{site}: unrecognised mask construction {sym.show(other[0])[:160]}')
-    kind, thr = res
-    thr = thr.subs(sp.Symbol('shape_l'), L + pad)
-    for s_ in list(thr.free_symbols):
-      if s_.name == 'shape_l':
-        thr = thr.subs(s_, L + pad)
-    thr = sp.expand(thr)
-    chk.check(kind == 'index', rule, f'{site}: the mask is decided by position along the padded axis (tail padding reads as wavenumber 0 in modal_axes and must still be zeroed)',
-              f'{kind}-based mask {sym.show(other[0])[:160]}', loc, 'position-based mask (ones(...).at[-k:].set(0) or arange(shape) < c)', f'compares wavenumber values: padding (l = 0) is kept')
-    chk.check(alg.equal(thr, L - n), rule, f'{site}: keeps exactly the positions j < total_wavenumbers − n (the last n + modal_padding[-1] columns are zeroed)', f'keep ⇔ j < {thr}', loc,
-              'j < L - n', f'j < {thr}')
+  # a fast path for particular n (φ on n == c) is decided arm by arm with n bound on the arm where the test holds
+  def arms(t, bound):
+    if t.k == 'phi' and t.a[0].k == 'cmp' and tuple(t.a[0].a[0]) == ('==',) and len(t.a[0].a[1]) == 2 and S('n') in t.a[0].a[1]:
+      ops = t.a[0].a[1]
+      c = ops[1] if ops[0] == S('n') else ops[0]
+      if c.k == 'const' and isinstance(c.a[0], int) and bound is None:
+        return arms(t.a[1], c.a[0]) + arms(t.a[2], None)
+    return [(bound, t)]
+  for nb, arm in arms(v, None):
+    where = f' [n == {nb}]' if nb is not None else (' [general n]' if v.k == 'phi' else '')
+    fs = match.plain_factors(arm)
+    other = [t for t in fs if t != x]
+    if chk.check(len(fs) == 2 and x in fs and len(other) == 1, rule, f'{site}{where}: multiplies by a 0/1 mask along the total-wavenumber axis', sym.show(arm)[:200], loc):
+      B = alg.Algebra(ev2)
+      n = B.name(lambda t: t == S('n'), 'n', positive=True)
+      pad = B.name(lambda t: t.k == 'sub' and t.a[1] == sym.const(-1) and t.a[0].k == 'attr' and t.a[0].a[1] == 'modal_padding', 'pad_l', nonnegative=True)
+      L = B.name(lambda t: t.k == 'attr' and t.a[1] == 'total_wavenumbers', 'L', positive=True)
+      B.name(lambda t: t.k == 'sub' and t.a[1] == sym.const(-1) and t.a[0].k == 'attr' and t.a[0].a[1] == 'modal_shape', 'shape_l')
+      m_ = other[0]
+      while m_.k == 'call' and m_.a[0].k == 'ext' and m_.a[0].a[0].rsplit('.', 1)[-1] in ('asarray', 'array') and m_.a[1]:
+        m_ = m_.a[1][0]   # dtype conversion of the mask
+      res = mask_keep_threshold(m_, B, L, pad)
+      if res is None:
+        raise AnalysisError(f'{site}: unrecognised mask construction {sym.show(other[0])[:160]}')
+      kind, thr = res
+      for s_ in list(thr.free_symbols):
+        if s_.name == 'shape_l':
+          thr = thr.subs(s_, L + pad)
+      want = L - n
+      if nb is not None:
+        thr, want = thr.subs(n, nb), want.subs(n, nb)
+      thr = sp.expand(thr)
+      chk.check(kind == 'index', rule, f'{site}{where}: the mask is decided by position along the padded axis (tail padding reads as wavenumber 0 in modal_axes and must still be zeroed)',
+                f'{kind}-based mask {sym.show(other[0])[:160]}', loc, 'position-based mask (ones(...).at[-k:].set(0) or arange(shape) < c)', f'compares wavenumber values: padding (l = 0) is kept')
+      chk.check(alg.equal(thr, want), rule, f'{site}{where}: keeps exactly the positions j < total_wavenumbers − n (the last n + modal_padding[-1] columns are zeroed)', f'keep ⇔ j < {thr}', loc,
+                f'j < {want}', f'j < {thr}')
   conds = [sym.show(guards.path_cond(p)) for p, e, l in ctx.raises]
   chk.check(any('n' in c for c in conds), rule, f'{site}: rejects non-positive n', str(conds), loc)
 
@@ -586,7 +601,33 @@ def rule_uv(chk, prog):
   chk.at_least(rule, 12)
 
 
+def rule_factory_radius(chk, prog):
+  """Every way the library hands out a Grid must carry the caller's radius into it: a factory that accepts `radius` and drops it returns a
+  unit-sphere grid whose metric factors are off by powers of the radius."""
+  import re
+  rule = 'C02.10-factories-forward-the-radius'
+  g = prog.cls(f'{SH}.Grid')
+  n = 0
+  for name, fi in sorted(g.methods.items()):
+    if not fi.is_classmethod():
+      continue
+    site, loc = f'{SH}.Grid.{name}', (fi.file, fi.lineno)
+    ev = sym.Evaluator(prog, sym.Options(opaque={f'{SH}.Grid.construct'} if re.fullmatch(r'(TL|T)\d+', name) else set()))
+    v, _, _ = ev.run(fi)
+    if 'radius' in fi.param_names():
+      got = util.field(v, 'radius') if v.k == 'obj' else (util.call_kwargs(v).get('radius') if v.k == 'call' else None)
+      chk.check(got is not None and got == Term('sym', 'radius'), rule, f'{site}: the `radius` argument becomes the radius of the constructed Grid', sym.show(got) if got is not None else 'not passed', loc,
+                'radius=radius', sym.show(got) if got is not None else 'default (None → 1.0)')
+      n += 1
+    elif re.fullmatch(r'(TL|T)\d+', name):
+      ok = v.k == 'call' and util.callee_name(v) == 'construct' and any(k_ == '**' for k_, _ in v.a[2])
+      chk.check(ok, rule, f'{site}: forwards its keyword options (radius among them) to construct', sym.show(v, maxdepth=2)[:120], loc)
+      n += 1
+  chk.at_least(rule, 20)
+
+
 def run(chk, prog, tier):
+  rule_factory_radius(chk, prog)
   from rules import c01 as _c01m
   _c01m.rule_metric(chk, prog, rule='C02.9-metric-factors')
   from rules import c01 as _c01
